@@ -126,8 +126,23 @@ def probe_carloader():
     return None
 
 
+def probe_plain_text():
+    from esrally.mechanic import provisioner
+
+    templ = {".ini", ".txt", ".json", ".yml", ".yaml", ".options", ".properties"}
+    exts = sorted(templ) + ["", ".", ".js", ".ya", ".prop", ".option", ".t", ".i", ".jar", ".so", ".bin", ".keystore", ".sh", ".policy", ".xml", ".tar.gz", ".yml.bak", ".JSON", ".yaml "]
+    for stem in ("elasticsearch", "jvm", "a.b", ".hidden", "dir.d/file"):
+        for e in exts:
+            name = stem + e
+            want = os.path.splitext(name)[1] in templ
+            got = provisioner.plain_text(name)
+            if bool(got) != want:
+                return f"plain_text({name!r}) = {got!r}: a file is a template exactly if its whole extension is one of {sorted(templ)}"
+    return None
+
+
 def main(rec):
-    for f in (probe_installer, probe_provisioner_variables, probe_docker, probe_cleanup, probe_carloader):
+    for f in (probe_installer, probe_provisioner_variables, probe_docker, probe_cleanup, probe_carloader, probe_plain_text):
         try:
             v = f()
         except Exception as ex:  # noqa
